@@ -80,6 +80,17 @@ public:
       strides_[r] = m.stride(r);
   }
 
+  /// \brief Construct the rank-0 mapping from another rank-0 mapping (such mappings do not provide `stride(r)`)
+  template <class M, class E = extents_type,
+    std::enable_if_t<(E::rank() == 0 && M::extents_type::rank() == 0), int> = 0,
+    std::enable_if_t<(M::is_always_unique()), int> = 0,
+    std::enable_if_t<(M::is_always_strided()), int> = 0,
+    decltype(std::declval<M>().extents(), bool{}) = true>
+  constexpr mapping (const M& m) noexcept
+    : extents_(m.extents())
+    , strides_{}
+  {}
+
   /// \brief Copy-assignment for the mapping
   constexpr mapping& operator= (const mapping&) noexcept = default;
 
